@@ -89,13 +89,19 @@ class World:
         self.extra_links = []                 # links created beyond the pool (projected as NL+1..)
         self.vertex_cls = vertex_cls
         for _ in range(init["bv"]):
-            self._reg_vertex(vertex_cls())
+            self._reg_vertex(self._new_vertex())
         for _ in range(init["bu"]):
             self._reg_universe(Universe(), default_laws=True)
         for j in range(self.NU + 1, self.NLaw + 1):
             if init["bl"][j - 1]:
                 self.LAW[j] = UniverseLaws()
         self._index()
+
+    def _new_vertex(self, **kw):
+        cls = self.vertex_cls
+        if isinstance(cls, (list, tuple)):          # a mixed pool: classes cycle with the vertex number
+            cls = cls[self.bv % len(cls)]
+        return cls(**kw)
 
     # -- registry ---------------------------------------------------------------------------
     def _index(self):
@@ -200,7 +206,7 @@ class World:
             O(a[0]).remove_from_universe(O(self.NV + a[1]))
             return []
         if op == "vnew":
-            v = self.vertex_cls(links=[L[e] for e in a], universes=[O(u) for u in b])
+            v = self._new_vertex(links=[L[e] for e in a], universes=[O(u) for u in b])
             return [self._reg_vertex(v)]
         if op == "unew":
             law = None if b[0] == 0 else self.LAW[b[0]]
